@@ -1,7 +1,12 @@
 package main
 
 import (
+	"fmt"
+	"go/constant"
 	"go/token"
+	"go/types"
+	"sort"
+	"strings"
 
 	"golang.org/x/tools/go/ssa"
 )
@@ -73,4 +78,426 @@ func computedFrom(v, target ssa.Value, depth int) bool {
 		}
 	}
 	return false
+}
+
+// ---- C15.PURE: a diagnostic is dropped iff a pattern matches it ----
+
+// filtState is one abstract state of the walk through a filter function: where we are, whether we are inside an iteration of
+// the loop over the input, whether a pattern matched the current element in this iteration (m), whether the element was
+// appended to the result (a), which pattern sets are known to be empty (e1: command line, e2: per-path), and the known
+// values of boolean flags (env).
+type filtState struct {
+	b      *ssa.BasicBlock
+	inIter bool
+	m, a   bool
+	e1, e2 bool
+	env    map[ssa.Value]byte // 'T', 'F', 'M' (the result of a match on the element, not yet branched on), 'N' (its negation)
+}
+
+func (s filtState) key() string {
+	k := []byte{byte('0' + s.b.Index/100), byte('0' + s.b.Index/10%10), byte('0' + s.b.Index%10), '|'}
+	for _, f := range []bool{s.inIter, s.m, s.a, s.e1, s.e2} {
+		if f {
+			k = append(k, '1')
+		} else {
+			k = append(k, '0')
+		}
+	}
+	var names []string
+	for v, x := range s.env {
+		names = append(names, v.Name()+"="+string(x))
+	}
+	sort.Strings(names)
+	return string(k) + "|" + strings.Join(names, ",")
+}
+
+type filtWalk struct {
+	fn     *ssa.Function
+	isElem func(ssa.Value) bool
+	head   *ssa.BasicBlock          // header of the loop over the input (nil in a helper)
+	body   map[*ssa.BasicBlock]bool // its natural loop
+	input  ssa.Value                // the input slice (nil in a helper)
+	depth  int
+	cache  map[*ssa.Call]bool
+	// results
+	problems []string
+	retsOfM  bool // helper: every return hands back exactly "a pattern matched"
+	nRet     int
+	nApp     int
+	nInput   int // returns of the unfiltered input
+	counted  map[ssa.Instruction]bool
+}
+
+func (w *filtWalk) once(in ssa.Instruction) bool {
+	if w.counted == nil {
+		w.counted = map[ssa.Instruction]bool{}
+	}
+	if w.counted[in] {
+		return false
+	}
+	w.counted[in] = true
+	return true
+}
+
+func (w *filtWalk) problem(pos token.Pos, msg string) {
+	at := w.fn.Prog.Fset.Position(pos)
+	s := fmt.Sprintf("%s (line %d)", msg, at.Line)
+	for _, p := range w.problems {
+		if p == s {
+			return
+		}
+	}
+	w.problems = append(w.problems, s)
+}
+
+// matchLike: v is the result of IgnorePatterns.Match on the current element, or of a helper of the module that returns
+// true exactly when some pattern matched the element it is given.
+func (w *filtWalk) matchLike(v ssa.Value) bool {
+	call, ok := v.(*ssa.Call)
+	if !ok {
+		return false
+	}
+	if r, ok := w.cache[call]; ok {
+		return r
+	}
+	r := w.matchLike0(call)
+	if w.cache == nil {
+		w.cache = map[*ssa.Call]bool{}
+	}
+	w.cache[call] = r
+	return r
+}
+
+func (w *filtWalk) matchLike0(call *ssa.Call) bool {
+	g := staticCallee(&call.Call)
+	if g == nil {
+		return false
+	}
+	if FuncName(g) == "(IgnorePatterns).Match" {
+		return len(call.Call.Args) == 2 && w.isElem(call.Call.Args[1])
+	}
+	if !inModule(g) || g.Blocks == nil || w.depth >= 2 || g.Signature.Results().Len() != 1 {
+		return false
+	}
+	if b, ok := g.Signature.Results().At(0).Type().Underlying().(*types.Basic); !ok || b.Kind() != types.Bool {
+		return false
+	}
+	for i, a := range call.Call.Args {
+		if w.isElem(a) && i < len(g.Params) {
+			par := g.Params[i]
+			h := &filtWalk{fn: g, isElem: func(x ssa.Value) bool { return x == ssa.Value(par) }, depth: w.depth + 1, retsOfM: true}
+			h.run()
+			return h.retsOfM && h.nRet > 0 && len(h.problems) == 0
+		}
+	}
+	return false
+}
+
+// emptiness: cond is len(X) == 0 / != 0 / > 0 for X a pattern set; which set (1 command line, 2 per-path) and on which
+// outcome it is empty.
+func emptiness(cond ssa.Value) (set int, emptyOnTrue bool) {
+	bo, ok := cond.(*ssa.BinOp)
+	if !ok {
+		return 0, false
+	}
+	call, ok := bo.X.(*ssa.Call)
+	if !ok {
+		return 0, false
+	}
+	if bi, ok := call.Call.Value.(*ssa.Builtin); !ok || bi.Name() != "len" {
+		return 0, false
+	}
+	if k, ok := constInt(bo.Y); !ok || k != 0 {
+		return 0, false
+	}
+	switch bo.Op {
+	case token.EQL:
+		emptyOnTrue = true
+	case token.NEQ, token.GTR:
+	default:
+		return 0, false
+	}
+	x := call.Call.Args[0]
+	if n := namedOf(x.Type()); n != nil && n.Obj().Name() == "IgnorePatterns" {
+		return 1, emptyOnTrue
+	}
+	if sl, ok := x.Type().Underlying().(*types.Slice); ok {
+		if n := namedOf(sl.Elem()); n != nil && n.Obj().Name() == "PathConfig" {
+			return 2, emptyOnTrue
+		}
+	}
+	return 0, false
+}
+
+func (w *filtWalk) valueOf(env map[ssa.Value]byte, v ssa.Value) byte {
+	neg := false
+	for {
+		u, ok := v.(*ssa.UnOp)
+		if !ok || u.Op != token.NOT {
+			break
+		}
+		v, neg = u.X, !neg
+	}
+	var x byte
+	if k, ok := v.(*ssa.Const); ok && k.Value != nil && k.Value.Kind() == constant.Bool {
+		x = 'F'
+		if constant.BoolVal(k.Value) {
+			x = 'T'
+		}
+	} else if e, ok := env[v]; ok {
+		x = e
+	} else if w.matchLike(v) {
+		x = 'M'
+	}
+	if neg {
+		switch x {
+		case 'T':
+			x = 'F'
+		case 'F':
+			x = 'T'
+		case 'M':
+			x = 'N'
+		case 'N':
+			x = 'M'
+		}
+	}
+	return x
+}
+
+func (w *filtWalk) run() {
+	seen := map[string]bool{}
+	start := filtState{b: w.fn.Blocks[0], env: map[ssa.Value]byte{}}
+	work := []filtState{start}
+	seen[start.key()] = true
+	push := func(s filtState) {
+		if k := s.key(); !seen[k] && len(seen) < 20000 {
+			seen[k] = true
+			work = append(work, s)
+		}
+	}
+	for len(work) > 0 {
+		s := work[len(work)-1]
+		work = work[:len(work)-1]
+		b := s.b
+		for _, in := range b.Instrs {
+			switch x := in.(type) {
+			case *ssa.Call:
+				if bi, ok := x.Call.Value.(*ssa.Builtin); ok && bi.Name() == "append" && w.head != nil && len(x.Call.Args) == 2 {
+					if elems, ok := variadicArgs(x.Call.Args[1]); ok {
+						for _, e := range elems {
+							if e != nil && w.isElem(e) {
+								if w.once(x) {
+									w.nApp++
+								}
+								if s.m {
+									w.problem(x.Pos(), "a diagnostic is appended to the result on a path on which a pattern matched it")
+								}
+								if !s.inIter {
+									w.problem(x.Pos(), "an element of the input is appended outside the loop over the input")
+								}
+								s.a = true
+							}
+						}
+					}
+				} else if g := staticCallee(&x.Call); g != nil && FuncName(g) == "(IgnorePatterns).Match" && w.head != nil && w.body[b] && !w.matchLike(x) {
+					w.problem(x.Pos(), "a pattern set is matched against something other than the diagnostic of this iteration")
+				}
+			case *ssa.Return:
+				w.nRet++
+				if w.head == nil {
+					// helper: the result is "a pattern matched"
+					if len(x.Results) != 1 {
+						w.retsOfM = false
+						break
+					}
+					switch w.valueOf(s.env, x.Results[0]) {
+					case 'T':
+						if !s.m {
+							w.retsOfM = false
+						}
+					case 'F':
+						if s.m {
+							w.retsOfM = false
+						}
+					case 'M':
+						if s.m {
+							w.retsOfM = false
+						}
+					default:
+						w.retsOfM = false
+					}
+					break
+				}
+				if s.inIter {
+					w.problem(x.Pos(), "the function returns in the middle of the loop over the input")
+				}
+				if len(x.Results) == 1 && x.Results[0] == w.input {
+					if w.once(x) {
+						w.nInput++
+					}
+					if !s.e1 || !s.e2 {
+						w.problem(x.Pos(), "the input is returned unfiltered on a path on which only one of the two pattern sets (command line, per-path configuration) is known to be empty")
+					}
+				}
+			}
+		}
+		last := b.Instrs[len(b.Instrs)-1]
+		var outs []int // successor indexes to follow
+		var tweak [2]func(*filtState)
+		if ifi, ok := last.(*ssa.If); ok {
+			outs = []int{0, 1}
+			cond, neg := ifi.Cond, false
+			for {
+				u, ok := cond.(*ssa.UnOp)
+				if !ok || u.Op != token.NOT {
+					break
+				}
+				cond, neg = u.X, !neg
+			}
+			idx := func(truth bool) int { // successor taken when cond (without the negations) has this truth value
+				if truth != neg {
+					return 0
+				}
+				return 1
+			}
+			switch v := w.valueOf(s.env, cond); v {
+			case 'T':
+				outs = []int{idx(true)}
+			case 'F':
+				outs = []int{idx(false)}
+			case 'M', 'N':
+				c0 := cond
+				tm, fm := byte('T'), byte('F')
+				if v == 'N' {
+					tm, fm = 'F', 'T'
+				}
+				// cond true: for 'M' a pattern matched, for 'N' none did
+				tweak[idx(true)] = func(n *filtState) {
+					n.env[c0] = 'T'
+					if tm == 'T' {
+						n.m = true
+					}
+				}
+				tweak[idx(false)] = func(n *filtState) {
+					n.env[c0] = 'F'
+					if fm == 'T' {
+						n.m = true
+					}
+				}
+			default:
+				if set, emptyOnTrue := emptiness(cond); set != 0 {
+					tweak[idx(emptyOnTrue)] = func(n *filtState) {
+						if set == 1 {
+							n.e1 = true
+						} else {
+							n.e2 = true
+						}
+					}
+				}
+			}
+		} else {
+			for i := range b.Succs {
+				outs = append(outs, i)
+			}
+		}
+		for _, i := range outs {
+			to := b.Succs[i]
+			n := filtState{b: to, inIter: s.inIter, m: s.m, a: s.a, e1: s.e1, e2: s.e2, env: map[ssa.Value]byte{}}
+			for k, v := range s.env {
+				n.env[k] = v
+			}
+			if i < 2 && tweak[i] != nil {
+				tweak[i](&n)
+			}
+			// phis of the target
+			pi := -1
+			for j, pr := range to.Preds {
+				if pr == b {
+					pi = j
+				}
+			}
+			vals := map[ssa.Value]byte{}
+			for _, in := range to.Instrs {
+				ph, ok := in.(*ssa.Phi)
+				if !ok {
+					break
+				}
+				if bt, ok := ph.Type().Underlying().(*types.Basic); !ok || bt.Kind() != types.Bool || pi < 0 {
+					continue
+				}
+				vals[ph] = w.valueOf(n.env, ph.Edges[pi])
+			}
+			for ph, v := range vals {
+				if v == 0 {
+					delete(n.env, ph)
+				} else {
+					n.env[ph] = v
+				}
+			}
+			if w.head != nil {
+				switch {
+				case to == w.head && w.body[b]:
+					// end of an iteration
+					if !n.m && !n.a {
+						w.problem(exitPos(b), "an iteration can end without appending a diagnostic that no pattern matched")
+					}
+					n.inIter, n.m, n.a = false, false, false
+					n.env = map[ssa.Value]byte{}
+				case b == w.head && w.body[to]:
+					n.inIter, n.m, n.a = true, false, false
+				case w.body[b] && !w.body[to] && b != w.head:
+					w.problem(exitPos(b), "the loop over the input is left from inside its body: the diagnostics behind that point are dropped")
+					continue
+				}
+			}
+			push(n)
+		}
+	}
+}
+
+// filterDropsIffMatched analyses fn, a function that filters the slice `input` (a parameter) by appending its elements in a
+// loop. It returns the problems found, the number of appends of input elements and the number of returns of the input itself.
+func filterDropsIffMatched(fn *ssa.Function, input *ssa.Parameter) (problems []string, nApp, nInput int) {
+	// the loop: the innermost loop around an append of an element of the input
+	isElem := func(v ssa.Value) bool {
+		ld, ok := v.(*ssa.UnOp)
+		if !ok || ld.Op != token.MUL {
+			return false
+		}
+		ia, ok := ld.X.(*ssa.IndexAddr)
+		return ok && ia.X == ssa.Value(input)
+	}
+	var head *ssa.BasicBlock
+	eachInstr(fn, func(b *ssa.BasicBlock, _ int, in ssa.Instruction) {
+		call, ok := in.(*ssa.Call)
+		if !ok || head != nil {
+			return
+		}
+		if bi, ok := call.Call.Value.(*ssa.Builtin); !ok || bi.Name() != "append" || len(call.Call.Args) != 2 {
+			return
+		}
+		if elems, ok := variadicArgs(call.Call.Args[1]); ok {
+			for _, e := range elems {
+				if e != nil && isElem(e) {
+					head = innermostLoopOf(fn, b)
+				}
+			}
+		}
+	})
+	if head == nil {
+		return []string{"no loop that appends the elements of the input"}, 0, 0
+	}
+	body := naturalLoop(head)
+	// the element of this iteration: read at an index that is computed inside the loop
+	elemOfIter := func(v ssa.Value) bool {
+		if !isElem(v) {
+			return false
+		}
+		ix, ok := v.(*ssa.UnOp).X.(*ssa.IndexAddr).Index.(ssa.Instruction)
+		return ok && ix.Block() != nil && body[ix.Block()]
+	}
+	w := &filtWalk{fn: fn, isElem: elemOfIter, head: head, body: body, input: input}
+	w.run()
+	sort.Strings(w.problems)
+	return w.problems, w.nApp, w.nInput
 }
